@@ -7,3 +7,4 @@ const verifBoundRootRec = 40
 const verifBoundFile = 10
 const verifBoundIdxLookups = 3
 const verifBoundIdxFile = 112
+const verifBoundTail = 12
